@@ -26,6 +26,18 @@ CLAIMED["C10"] = dict(
     technique="bounded exhaustive enumeration of configurations (deviation-bounded DFS over choice points) on the implementation with reference layout oracle",
     design_ref="3/C10")
 
+CLAIMED["C09"] = dict(
+    level="model_checking",
+    text="Explicit-state BFS over all histories of alloc/release/shrink/write+shrink/reset on the real JitAllocator (64 KiB blocks, <=4 live "
+         "spans) per option set and granularity; after every transition the span model, queries (live, released, padding, free, foreign, null), "
+         "statistics, aliasing of rx/rw, fill pattern, reuse of freed memory, empty-block policy and the used/stop bit vectors are checked. "
+         "States are merged on the allocator's complete bookkeeping state.",
+    note="Trusts the harness model; block size fixed to the smallest legal one; histories deeper than the bound and more than 4 live spans "
+         "are not explored; large pages only as far as the kernel grants them; the 'random to 10^5 operations' part of the quantifier is "
+         "replaced by BFS on canonical states.",
+    technique="explicit-state BFS over operation histories on the implementation with canonical-state dedup and reference span model",
+    design_ref="3/C09")
+
 NOT_YET = "check not built yet in this round (planned, see DESIGN.md section 3); not claimed until it exists and passes"
 
 
